@@ -24,7 +24,7 @@ MANIFEST = {
 }
 
 BOUNDS = {"quick": {"vertices": 3, "links": 2, "option_tables": 5}, "thorough": {"vertices": 3, "links": 3, "option_tables": 5}}
-TIME_BUDGET = {"quick": 300, "thorough": 2400}
+TIME_BUDGET = {"quick": 300, "thorough": 1200}
 STUBS = ["dir(obj) -> instance fields + non-dunder class names", "re, datetime -> executed natively on concrete arguments",
          "hex(id(v)) -> distinct opaque text per object"]
 ASSUMPTIONS = ["links are two-ended with two vertex ends", "vertex titles are pairwise distinct (distinct ids / distinct attribute i)"]
